@@ -41,6 +41,7 @@ theorem KStep.record_origin {e e' : Entry} {lab : KLabel} (h : KStep e lab e') (
     · exact Or.inr (Or.inr ⟨T, Or.inr rfl, rfl, rfl⟩)
     · exact Or.inl h2
   | locks k T acts ha hf => rw [(KStep.locks k T acts ha hf).locks_writes] at hw; exact Or.inl hw
+  | touch k T l l' hl hT hT' hop => exact Or.inl hw
   | unlock acts ha => rw [(KStep.unlock acts ha).unlock_writes] at hw; exact Or.inl hw
   | gc k sp =>
     rw [gcWrites_eq, foldl_entryAct_delWrites] at hw
